@@ -65,6 +65,12 @@ def run(v):
     rnd = random.Random(SEED)
     for d in fam[::4]:
         D.replace_help_names(d, rnd, 0.5)
+    # the shapes the parsing engines know beyond the help family: positional and env-backed branches of choices,
+    # commands whose own level holds choices and groups, validated switches, `catch`
+    q = v.tier == "quick"
+    fam += D.alt_pos_family(SEED + 121, 8 if q else 40) + D.alt_env_family(SEED + 122, 8 if q else 40) + \
+        D.tree_group_family(SEED + 123, 8 if q else 40, kinds=("alt", "adj")) + D.flagguard_family(SEED + 124, 6 if q else 18) + \
+        D.catch_family(SEED + 125, 6 if q else 18)
     recs, t = judge_render(v, "C12", hbin, fam, "h")
     levels = len(recs)
     samples = [{"def": r["def"], "path": r["path"], "items": r["items"][:12]} for r in recs[5:8]]
